@@ -3,6 +3,7 @@ package sym
 import (
 	"fmt"
 	"go/types"
+	"unicode/utf8"
 
 	"golang.org/x/tools/go/ssa"
 
@@ -261,6 +262,14 @@ func (e *Engine) copyOp(st *State, dst *SliceV, src Value, x *ssa.Call) Value {
 		maxN = u
 	}
 	if maxN > 256 {
+		// the syntactic bound is too coarse: ask the solver whether the path condition bounds the count
+		probe := st.fork()
+		probe.assume(term.Ult(c64(256), n))
+		if probe.dead() || !e.feasible(probe) {
+			maxN = 256
+		}
+	}
+	if maxN > 256 {
 		panic(unsupported(fmt.Sprintf("copy with unbounded symbolic length (ub %d) at %s", maxN, e.pos(x))))
 	}
 	vals := make([]*term.Term, maxN)
@@ -444,27 +453,21 @@ func (e *Engine) rangeNext(st *State, fr *frame, x *ssa.Next) []cont {
 	it := e.get(st, fr, x.Iter).(*IterV)
 	pos, _ := concreteInt(st.heap[it.Obj.ID])
 	tup := x.Type().(*types.Tuple)
+	zeroOf := func(t types.Type) Value {
+		if b, ok := t.(*types.Basic); ok && b.Kind() == types.Invalid {
+			return nil // a blank range variable
+		}
+		return e.zero(t)
+	}
 	done := func() []cont {
-		return one(st, &TupleV{E: []Value{term.False, e.zero(tup.At(1).Type()), e.zero(tup.At(2).Type())}})
+		return one(st, &TupleV{E: []Value{term.False, zeroOf(tup.At(1).Type()), zeroOf(tup.At(2).Type())}})
 	}
 	if it.Str != nil {
 		s, _ := it.Str.Concrete()
 		if pos >= len(s) {
 			return done()
 		}
-		// decode one rune (ASCII fast path; general via Go)
-		r, size := rune(s[pos]), 1
-		if s[pos] >= 0x80 {
-			for i, rr := range s[pos:] {
-				if i == 0 {
-					r = rr
-				} else {
-					size = i
-					break
-				}
-				size = len(s) - pos
-			}
-		}
+		r, size := utf8.DecodeRuneInString(s[pos:]) // what the Go range statement does (RuneError, width 1 on bad UTF-8)
 		st.heap[it.Obj.ID] = c64(pos + size)
 		return one(st, &TupleV{E: []Value{term.True, c64(pos), term.Const(32, uint64(r))}})
 	}
